@@ -18,6 +18,8 @@ import copy
 import re
 import warnings
 
+import numpy as np
+
 from ..monitors.seams import Seams
 from ..monitors.twin import Twin, TwinError
 from ..recipes import ast as A
@@ -180,7 +182,7 @@ def info(tier):
         "(problem, method) hashes",
         "required_cells": [f"route:{r}" for r in ROUTES] + [f"method:{m}" for m in METHODS] + [f"shape:{s}" for s in SHAPES]
         + ["domain:integer", "domain:binary", "strict-raises", "warning-names", "relaxation-equals-twin", "binary-bounds", "view-domain",
-                             "repeat:strict-after-solve", "repeat:warning-after-solve", "bounds:plain", "bounds:odd", "bounds:fractional", "bounds:pinned-some", "bounds:pinned-all", "bounds:large", "warning-when-the-solver-call-fails", "non-strict-spelling:omitted", "non-strict-spelling:False", "non-strict-spelling:None", "non-strict-spelling:0"],
+                             "repeat:strict-after-solve", "repeat:warning-after-solve", "bounds:plain", "bounds:odd", "bounds:fractional", "bounds:pinned-some", "bounds:pinned-all", "bounds:large", "warning-when-the-solver-call-fails", "names-with-commas", "relaxed-values-through-container-handles", "non-strict-spelling:omitted", "non-strict-spelling:False", "non-strict-spelling:None", "non-strict-spelling:0"],
         "assumptions": ["the relaxation twin is the same recipe with domain=continuous (binary -> [0,1]) solved in the twin process with the same method"],
     }
 
@@ -299,6 +301,30 @@ def run_cell(rec, seams, twin, route, domain, shape, method, nonlinear, odd):
         got_names = split_names(m.group(1)) if m else []
         if sorted(got_names) != sorted(Dset):
             bad("warning-names-wrong-variables", got=got_names, want=Dset)
+    # the relaxed solution read through container handles (sol[x], sol[A], sol.get(view)): the values of the continuous relaxation,
+    # element for element - not rounded or cast to the declared domain
+    if sol.values:
+        handles = [(d["name"], b.env[d["name"]]) for d in prob["decls"] if d["k"] in ("vec", "mat")]
+        if kind != "S":
+            handles.append(("route-view", view))
+        for hname, h in handles:
+            try:
+                if hasattr(h, "rows"):
+                    hn = [[h[i_, j_].name for j_ in range(h.cols)] for i_ in range(h.rows)]
+                else:
+                    hn = [v_.name for v_ in h]
+                flat = [n_ for row_ in hn for n_ in row_] if hn and isinstance(hn[0], list) else hn
+                if not all(n_ in sol.values for n_ in flat):
+                    continue
+                want_arr = np.array([[sol.values[n_] for n_ in row_] for row_ in hn] if hn and isinstance(hn[0], list) else [sol.values[n_] for n_ in hn], dtype=float)
+                for how, got_ in (("[]", sol[h]), ("get", sol.get(h))):
+                    rec.cmp(1, "relaxed-values-through-container-handles")
+                    ga = np.asarray(got_)
+                    if ga.shape != want_arr.shape or ga.dtype.kind != "f" or not np.array_equal(ga.astype(float), want_arr):
+                        bad("container-handle-does-not-return-the-relaxed-values", handle=hname, how=how, got=ga.tolist(), got_dtype=str(ga.dtype), want=want_arr.tolist())
+                        break
+            except Exception as ex:
+                bad("container-handle-raises:" + type(ex).__name__, handle=hname, error=repr(ex)[:200])
     # the same problem object again, now with warm solver caches: integrality must still not be relaxed silently
     seams.reset()
     rec.cmp(1, "repeat:strict-after-solve")
@@ -368,11 +394,65 @@ def split_names(s):
     return out
 
 
+def run_odd_names(rec, seams, method, nonlinear):
+    """Discrete scalar variables whose names come from tuple / string keys ("y(0, 1)", "n[a, b]", "q, r"): the strict error and the
+    warning name exactly the discrete problem variables - names are data, not a format"""
+    import optyx
+    from optyx.core.errors import IntegerVariableError
+
+    rec.case({"odd-names": method, "nl": nonlinear})
+    ys = {(i_, j_): optyx.Variable(f"y{(i_, j_)}", domain="binary") for i_ in range(2) for j_ in range(2)}
+    n_ab = optyx.Variable("n[a, b]", lb=0, ub=3, domain="integer")
+    qr = optyx.Variable("q, r", lb=0, ub=2, domain="integer")
+    plain = optyx.Variable("k", lb=0, ub=3, domain="integer")
+    t = optyx.Variable("t", lb=0.0, ub=2.0)
+    disc = list(ys.values()) + [n_ab, qr, plain]
+    want = sorted(v.name for v in disc)
+    obj = None
+    for i_, v in enumerate(disc + [t]):
+        term = (v - (0.3 + 0.2 * i_)) ** 2 if nonlinear else (1.0 + 0.5 * i_) * v
+        obj = term if obj is None else obj + term
+    tot = t
+    for v in disc:
+        tot = tot + v
+    P = optyx.Problem().minimize(obj).subject_to(tot >= 1.25)
+    seams.reset()
+    rec.cmp(1, "names-with-commas")
+    try:
+        with warnings.catch_warnings():
+            warnings.simplefilter("ignore")
+            P.solve(method=method, strict=True)
+        rec.violation("strict-did-not-raise", {"method": method, "names": want})
+    except IntegerVariableError as ex:
+        listed = sorted(getattr(ex, "variable_names", []) or [])
+        if listed != want:
+            rec.violation("strict-error-lists-wrong-variables", {"method": method, "got": listed, "want": want, "model": "scalar variables named from tuple keys"})
+    except Exception as ex:
+        rec.violation("strict-raises-other:" + type(ex).__name__, {"method": method, "error": repr(ex)[:200]})
+    try:
+        with warnings.catch_warnings(record=True) as wl:
+            warnings.simplefilter("always")
+            P.solve(method=method)
+        msgs = [str(w.message) for w in wl if issubclass(w.category, UserWarning) and "integer/binary" in str(w.message)]
+        rec.cmp(1, "names-with-commas")
+        if not msgs:
+            rec.violation("no-relaxation-warning", {"method": method, "model": "scalar variables named from tuple keys"})
+        elif not all(nm in msgs[0] for nm in want) or "'t'" in msgs[0]:
+            rec.violation("warning-names-wrong-variables", {"method": method, "message": msgs[0][:300], "want": want})
+    except Exception as ex:
+        rec.violation("non-strict-solve-raises:" + type(ex).__name__, {"method": method, "error": repr(ex)[:200]})
+
+
 def run(ctx, rec):
     seams = Seams().install()
     twin = Twin().start()
     try:
         i = 0
+        for mi, method in enumerate(METHODS):
+            for nonlinear in (False, True):
+                i += 1
+                if ctx.mine(i) and not (method in LP_ONLY and nonlinear):
+                    run_odd_names(rec, seams, method, nonlinear)
         for route in ROUTES:
             for domain in ("integer", "binary"):
                 for shape in SHAPES:
